@@ -61,7 +61,7 @@ def run_selftests(pid, mod, ctx):
                 results.append(res)
                 continue
             try:
-                fd, stamp, _ = facts.ensure_facts(repo=repo2, tag="-selftest")
+                fd, stamp, _ = facts.ensure_facts(repo=repo2, tag="-selftest-%d" % os.getpid())
             except facts.BuildFailed as e:
                 res["result"] = "skipped (patched copy does not compile: %s)" % str(e)[-200:]
                 results.append(res)
